@@ -92,6 +92,13 @@ def strategy(shard):
     return case()
 
 
+def _canon(t):
+    """svgling tuple with children sorted (sets have no order)."""
+    if isinstance(t, tuple) and len(t) >= 1 and all(isinstance(c, tuple) for c in t[1:]) and len(t) > 1:
+        return (t[0],) + tuple(sorted((_canon(c) for c in t[1:]), key=repr))
+    return t
+
+
 def evaluate(case, out):
     from shangrla.core import IRVVisualisationUtils as viz
 
@@ -176,6 +183,14 @@ def evaluate(case, out):
 
     if not walk(tree, root, set(S0), []):
         return
+    try:
+        with contextlib.redirect_stdout(io.StringIO()):
+            tree2 = viz.buildRemainingTreeAsLists(root, set(S0), list(WO), list(IRV))
+            t1, t2 = viz.treeListToTuple(tree), viz.treeListToTuple(tree2)
+    except Exception as e:  # noqa
+        out.lib_exception("second-build", e)
+        return
+    out.expect(repr(_canon(t1)) == repr(_canon(t2)), "tree-differs-between-two-builds-from-the-same-arguments", lambda: (repr(t1)[:120], repr(t2)[:120]))
     # brute force over all orders ending in the root
     uncontradicted = 0
     allasn = ref_neb + ref_nen
